@@ -157,6 +157,10 @@ def make_stale(rng, tier):
         state['n'][f] = 0
         init.append(_encode_variant(rng, _small_text(rng, f, 0)) if rng.random() < 0.9 else None)
     modes = ['cache'] * 5 + ['cache+diff'] * 3 + ['nocache', 'diff']
+    cfg['threads_share_process'] = cfg['nproc'] > 1 and rng.random() < 0.25
+    if cfg['threads_share_process']:
+        modes = ['cache'] * 6 + ['nocache']      # diff_cache mutates the shared module: not for concurrent threads
+        cfg['p_yield'] = rng.choice([0.05, 0.1, 0.25])
     ops = []
     if rng.random() < 0.04:
         # the in-memory cache at (and around) its default size trigger
@@ -203,7 +207,7 @@ def make_stale(rng, tier):
             else:
                 # the same, entry by entry, by one of the processes (clear_cache / rm -rf)
                 ops.append({'k': 'clearcache', 'p': rng.randrange(cfg['nproc']), 'c': rng.randrange(cfg['cdirs']),
-                            'mem': rng.random() < 0.7, 't': []})
+                            'mem': rng.random() < 0.7, 'api': rng.random() < 0.5, 't': []})
         elif r < 0.97:
             ops.append({'k': 'rmfile', 'f': rng.randrange(len(cfg['files']))})
         else:
@@ -296,7 +300,8 @@ def make_torn(rng, tier):
             if rng.random() < 0.6:
                 ops.append({'k': rng.choice(['rmcache', 'rmver']), 'c': c})
             else:
-                ops.append({'k': 'clearcache', 'p': rng.randrange(cfg['nproc']), 'c': c, 'mem': rng.random() < 0.7, 't': []})
+                ops.append({'k': 'clearcache', 'p': rng.randrange(cfg['nproc']), 'c': c, 'mem': rng.random() < 0.7,
+                            'api': rng.random() < 0.5, 't': []})
         elif r < 0.885 and 'age' in enabled and cfg['nproc'] > 1 and len(cfg['files']) > 1:
             # a due clean-up over several aged entries while the other process uses one of them:
             # both files cached, everything (and the lock) aged, then p0 saves file a (which starts the
